@@ -506,9 +506,16 @@ def root_specs(D, tier):
                 if kind == "nncontrol" and R == 2:
                     continue
                 specs.append(dict(label="cond.%s/Dx%d.Dy%d/R%d" % (kind, Dx, Dy, R), t="cond", kind=kind, Dx=Dx, Dy=Dy, R=R))
+    # measures and densities built through the other constructor argument combinations (covariance given without / with
+    # only one of its log-determinants)
+    for kind in ("GaussianMeasure", "GaussianDiagMeasure"):
+        for mode in ("Lambda+Sigma", "Lambda+Sigma+ldL"):
+            specs.append(dict(label="%s/R2/ctor.%s" % (kind, mode), t="measure", kind=kind, R=2, mode=mode))
+    for kind in ("GaussianPDF", "GaussianDiagPDF"):
+        specs.append(dict(label="%s/R2/ctor.Sigma+Lambda" % kind, t="measure", kind=kind, R=2, mode="Sigma+Lambda"))
     # the same conditionals built through the other constructor argument combinations
     for kind in ("full", "diag", "identity", "identity_diag"):
-        for ctor in ("Lambda", "all"):
+        for ctor in ("Lambda", "SigmaLambda", "all"):
             specs.append(dict(label="cond.%s/Dx%d.Dy%d/R2/ctor.%s" % (kind, D, D, ctor), t="cond", kind=kind, Dx=D, Dy=D, R=2, ctor=ctor))
     for fk in ("ConjugateFactor", "OneRankFactor", "LinearFactor", "ConstantFactor"):
         specs.append(dict(label="factor.%s/R2" % fk, t="factor", kind=fk, R=2))
@@ -552,11 +559,11 @@ def build_root(sys_, spec):
         if "PDF" in kind:
             Sig = objs.spd_batch(D, R, vi, seed, tag, diag=diag)
             mu = objs.vec_batch(D, R, vi, seed, tag)
-            return objs.mk_pdf(kind, Sig, mu), m_pdf_from_moments(kind, mu, Sig)
+            return objs.mk_pdf(kind, Sig, mu, mode=spec.get("mode", "Sigma")), m_pdf_from_moments(kind, mu, Sig)
         Lam = objs.spd_batch(D, R, vi, seed, tag, diag=diag)
         nu = objs.vec_batch(D, R, vi, seed, tag)
         lnb = objs.lnb_batch(R, vi, seed, tag)
-        return objs.mk_measure(kind, Lam, nu, lnb), m_measure(kind, Lam, nu, lnb)
+        return objs.mk_measure(kind, Lam, nu, lnb, mode=spec.get("mode", "Lambda")), m_measure(kind, Lam, nu, lnb)
     if t == "cond":
         kind, Dx, Dy, R = spec["kind"], spec["Dx"], spec["Dy"], spec["R"]
         tag = ("rootc", kind, Dx, Dy, R)
